@@ -8,12 +8,46 @@ SPEC = dict(
     instrument=FULL_STACK + ["./p2p/host/blank"],
     deps=FULL_DEPS,
     level="exploration",
-    level_text="placeholder",
-    level_note="placeholder",
-    technique="deterministic simulation with fault injection",
+    level_text=("seeded search over (listener handler table history x ordered request lists x dialer knowledge x host kinds x "
+                "connection events x schedules) with two real nodes on the simulated network; every lock, channel operation, "
+                "select and go statement of the stack is a scheduling decision. A reference model of the handler table (from the "
+                "Router documentation) judges, over stamped histories, which handler instance may have run for which negotiated "
+                "ID; nonce echo tagged with handler instance and the ID seen on the handler's end proves agreement and absence of "
+                "cross-talk; both REAL resource managers are read while the streams are held open and after they ended. "
+                "Sampling, not proof."),
+    level_note=("trusted: testing/synctest, simnet's TCP model, the overlay rewrite, the reference model of the handler table; a "
+                "mutation concurrent with an open may be seen or not (every prefix of the mutation sequence inside the open's "
+                "window is accepted); liveness (open must succeed) only when no mutation overlaps the open and no fault is "
+                "injected; 'first use' = first Write followed by first Read; not covered: limited (relayed) connections, wire "
+                "faults on the identify push (staleness comes from racing the push, link latency and Host.Mux() mutations that "
+                "emit no event), transports other than TCP"),
+    technique=("deterministic simulation with fault injection: full go-libp2p stack (host, identify, swarm, multistream, yamux, "
+               "resource manager) under a seeded lock-level scheduler on a simulated network; model-based history oracles"),
     design_ref="DESIGN.md section 6 (C07)",
     quick_s=50, thorough_s=600,
-    rule="placeholder",
-    probes=[],
-    real=[], stubs=[], assume=[],
+    rule=("one run = one tape: dialer/listener host kind (basic with identify | blank), security insecure|noise, link chunking and "
+          "latency, optional simultaneous connect (two connections), 1-4 initial handlers out of 8 specs (exact /a/1 /a/1.1 /a /b/1 "
+          "/c; match functions: prefix under the name /a, major-version under /a/1, alias under /b that does not match its own "
+          "name), then 1-3 rounds of: 0-2 handler mutations (set/replace/remove, through the host or silently through Host.Mux()), "
+          "push propagated or not, dialer knowledge kept|cleared|injected, optional reconnect, 1-3 concurrent NewStream calls with "
+          "ordered lists of 1-4 IDs out of 9 (normal | CloseWrite-before-read | ended without I/O; Close | Reset), optionally 1-2 "
+          "mutations racing with the opens; in 1/5 of the runs one resource-manager refusal of SetProtocol on either side (fault "
+          "stratum, liveness oracles off). non-trivial = at least one open verified end-to-end (echo tagged by the model-approved "
+          "handler) and (>=2 opens or >=1 mutation after connect); distinct = distinct (scheduler decision hash, host kinds, "
+          "mutation sequence, per-open request list and outcome)"),
+    probes=["lazy-ok", "eager-ok", "eager-fallback-ok", "match-handler-ran", "overlapping-handlers-resolved",
+            "knowledge-unknown", "knowledge-accurate", "knowledge-stale", "stale-knowledge-failed-at-first-use",
+            "lazy-first-use-failed-unsupported", "open-failed-no-common-protocol", "requested-id-removed-before-open",
+            "mutation-overlaps-open", "concurrent-opens", "two-connections", "reconnect", "open-on-later-connection",
+            "unused-stream-lazy", "unused-stream-eager", "handler-ran-for-unused-stream", "close-write-before-read",
+            "blank-dialer", "blank-listener"],
+    real=["ALL of the following run as tasks of the seeded scheduler (instrumented: every lock, channel operation, select, go statement is a scheduling point)",
+          "basic host (NewStream eager + lazy/optimistic path, newStreamHandler, SetStreamHandler/Match, RemoveStreamHandler), blank host",
+          "identify + identify push (knowledge of the remote's protocols)", "go-multistream (muxer, SelectOneOf, lazy client)",
+          "swarm (conns, streams, Stream.SetProtocol/Protocol)", "tcp transport dial path, upgrader, insecure|noise, yamux",
+          "resource manager (real, infinite limits; protocol scopes read through Stat()) behind a refusing wrapper",
+          "pstoremem (protocol book), eventbus"],
+    stubs=["wire: simnet TCP model", "refusing resource-manager wrapper (delegates to the real one; one refusal of SetProtocol in the fault stratum)"],
+    assume=["virtual clock of testing/synctest", "2 virtual seconds suffice for an identify push / a stream teardown on links with <= 20 ms latency",
+            "the Router documentation (first registered eligible handler wins, exact literal match) is the specification of handler choice"],
 )
